@@ -305,8 +305,16 @@ def itemWidth : Item → Nat
   | .oneOf _ _ _ vs => vs.length
   | _ => 1
 
-/-- jumps to named types: at most one per JSON nesting level plus an alias chain per level -/
-def deFuel (e : Env) (j : Json) : Nat := (jsonSize j + 2) * (e.items.length + e.externs.length + 2)
+/-- jumps to named types: per JSON nesting level at most one chain of input-free jumps (alias → target, struct →
+    flattened member), each name of the environment visited at most once (no cycle of aliases / by-value containment:
+    rustc E0391 / E0072) — and `deFlat` spends one more unit on the `Box` the generator puts around a recursive
+    flattened fragment / alias target.  Hence TWICE `#items + #externs + 2` jumps per level: with the single width the
+    fuel was exhausted on a generated module that serde reads (16 mutually recursive fragments, payload nested 12 deep:
+    `SerdeFuel.generated_module_fuel_exhausted` in `Proofs/SerdeFuelWitness.lean`); with the double width it never is
+    on an acyclic environment whose alias targets / flattened members carry at most one `Box`
+    (`SerdeFuel.envOK_of_acyclic`, `SerdeFuel.de_never_out_of_fuel`) — and no emitted module carries more
+    (`SerdeFuel.responseForQuery_boxBound`).  The fuel of `ser` stays single: `serPath` spends nothing on `Box`. -/
+def deFuel (e : Env) (j : Json) : Nat := 2 * ((jsonSize j + 2) * (e.items.length + e.externs.length + 2))
 
 /-- top level: read directly from the JSON text (not from buffered content) -/
 def de (e : Env) (t : RTy) (j : Json) : D Val := deTy e false (deFuel e j) t j
